@@ -49,7 +49,10 @@ def gen_program(rng, cyclic=False, allow=("follow", "single", "dyn", "disc", "fo
         disc = []
         if "disc" in allow and rng.random() < 0.3:
             l = rng.choice(LEAVES)
-            if l not in used: disc.append(l)
+            # a discovered key may coincide with a key the task also requested as must-follow or single-use
+            # (the recorded list then holds the key twice, with different flags)
+            kinds = {r["kind"] for r in start + dynThen + dynElse if r["k"] == l}
+            if l not in used or (kinds and kinds <= {"follow", "single"} and rng.random() < 0.7): disc.append(l)
         proj = [r["k"] for r in start if r["kind"] == "in" and rng.random() < 0.8]
         proj += [r["k"] for r in dynThen + dynElse if r["kind"] == "in" and r["k"] not in proj]
         prog[me] = dict(leaf=False, start=start, dynOn=dynOn, dynThen=dynThen, dynElse=dynElse, disc=disc,
@@ -58,6 +61,36 @@ def gen_program(rng, cyclic=False, allow=("follow", "single", "dyn", "disc", "fo
                         valid=not ("invalid" in allow and rng.random() < 0.12), sig=1,
                         out=("out" in allow and rng.random() < 0.3))
     return prog
+
+def gen_cycle_back_case(rng, cid, dbdir=None):
+    """C07: the key being built is itself part of a cycle that only exists in the second build: R is valid and being
+    scanned (its recorded dependency chain leads to X) when X's new task requests R."""
+    prog = gen_program(rng, cyclic=False, allow=("follow", "dyn", "disc", "force", "out"))
+    chain = rng.sample(DERIVED, rng.randint(2, 3)); chain.sort(key=DERIVED.index, reverse=True)      # R = chain[0] ... X = chain[-1]
+    for up, down in zip(chain, chain[1:]):
+        if all(r["k"] != down for r in prog[up]["start"]): prog[up]["start"].insert(rng.randrange(len(prog[up]["start"]) + 1), dict(k=down, kind="in"))
+        prog[up]["valid"] = True
+    ext = {l: rng.randrange(2) for l in LEAVES}; ext.update({k: 0 for k in DERIVED})
+    cb = CaseBuilder(cid, prog, ext)
+    usedb = dbdir is not None and rng.random() < 0.6
+    dbpath = "%s/%s.db" % (dbdir, cid) if usedb else None
+    cb.engine(db=dbpath)
+    R, X = chain[0], chain[-1]
+    cb.build(R, mode=rng.choice(["sync", "det"]), seed=rng.randrange(1 << 30), defer=100)
+    newprog = json.loads(json.dumps(cb.prog))
+    newprog[X]["start"] = newprog[X]["start"] + [dict(k=R, kind=rng.choice(["in", "follow"]))]
+    if rng.random() < 0.5: newprog[X]["sig"] += 1
+    else: newprog[X]["valid"] = False
+    if usedb or rng.random() < 0.5:
+        cb.engine(db=dbpath, newprog=newprog)
+        if not usedb: cb.build(R, mode="sync", seed=1)     # a database-less restart forgets everything: rebuild first
+    else:
+        cb.engine(db=dbpath, newprog=newprog)
+    l = rng.choice(LEAVES)
+    if rng.random() < 0.5: cb.mutate(l, 1 - cb.ext[l])
+    cb.build(R, mode=rng.choice(["sync", "det"]), seed=rng.randrange(1 << 30), defer=100)
+    cb.end()
+    return cb
 
 def rule_line(k, r):
     def reqs(l): return ",".join("%s:%s" % (x["k"], x["kind"]) for x in l)
